@@ -26,8 +26,12 @@ import npcatalog as C
 WHATS = ("not-covariant", "unitless-changed", "units-dropped", "class-changed", "dimension-changed",
          "structure-changed", "raises-after-reexpression", "raises-before-reexpression", "operand-not-covariant")
 
-# relative tolerance for ordinary (non-dyadic) units; atol scaled to the magnitude of the leaf
-ORD_RTOL = 1e-9
+# tolerance for ordinary (non-dyadic) units, relative to the largest magnitude of the leaf.  A covariance
+# defect is gross by nature (a wrong power of the conversion factor: 39.37, 60, 2.2, 1e5, …), so 1e-6 loses
+# nothing; anything subtle is caught by the exact mode (power-of-four rescaling, bit for bit).  Results
+# held in float32 / complex64 are compared with 1e-3.
+ORD_RTOL = 1e-6
+NARROW_RTOL = 1e-3
 
 # -----------------------------------------------------------------------------------------------
 # units
@@ -114,7 +118,7 @@ class UnitsOrd:
 class UnitsOrd2(UnitsOrd):
     name = "ord2"
     BASEN = ("km", "ms", "g")
-    ALTN = ("cm", "hr", "Msun")
+    ALTN = ("cm", "hr", "lb")
 
 
 MODES = {"p4": UnitsP4, "ord": UnitsOrd, "ord2": UnitsOrd2}
@@ -143,6 +147,9 @@ IMPLICIT = {
     ("ndarray.dot", "b"): None,
 }
 # positional parameter names of ndarray methods whose signature cannot be introspected
+# absolute tolerances that default to a bare number: the default is "1e-8 in the units of a" exactly as an
+# explicit bare atol is; the re-expressed call passes the re-expressed default
+IMPLICIT_DEFAULTS = {("numpy.isclose", "atol"): (1e-8, 0), ("numpy.allclose", "atol"): (1e-8, 0)}
 METHOD_PARAMS = {
     "ndarray.clip": ("self", "min", "max", "out"),
     "ndarray.put": ("self", "indices", "values", "mode"),
@@ -197,6 +204,50 @@ def _scale(v, f):
     if isinstance(v, np.ndarray):
         return v * f
     return v * f
+
+
+# -----------------------------------------------------------------------------------------------
+# functions that are not scale-covariant BY NATURE (justified in design.d/C07.md); nothing is loosened for
+# any other function
+
+# rounding to a decimal place of the NUMBER: the property lists rounding among the functions that must
+# return a unyt object in commensurable units, not among the covariant ones.  Class and dimension are
+# still checked; the numbers are not compared.
+ROUNDING = {"numpy.around", "numpy.round", "numpy.fix", "ndarray.round"}
+# explicit export of the raw numbers in the current unit (Python protocols and serialisation fix the
+# return type: float(), int(), complex(), .item(), .tolist(), bytes, files, np.asarray / view as ndarray)
+RAW_EXPORT = {"ndarray.item", "ndarray.tolist", "ndarray.tobytes", "ndarray.tofile", "ndarray.dump", "ndarray.dumps",
+              "ndarray.__float__", "ndarray.__int__", "ndarray.__complex__", "ndarray.__array__", "ndarray.flat",
+              "ndarray.view|type", "numpy.save", "numpy.savez", "numpy.savez_compressed", "numpy.savetxt",
+              "ndarray.to_device"}
+# reinterpretation of the stored bytes
+BYTE_LEVEL = {"ndarray.view|dtype", "ndarray.getfield", "ndarray.setfield", "ndarray.byteswap"}
+# a constant in the array's own unit, by NumPy's "like" contract (the value is not a function of the quantity)
+CONSTANT_LIKE = {"numpy.ones_like"}
+# the result is a dtype chosen from the VALUE of a scalar (np.min_scalar_type)
+VALUE_BASED_DTYPE = {"numpy.min_scalar_type"}
+# text
+TEXT = {"numpy.array_repr", "numpy.array_str", "numpy.array2string"}
+# NumPy widens a zero-width data range by the bare constants ±0.5 and uses (0, 1) for empty data
+DEGENERATE_RANGE = {"numpy.histogram", "numpy.histogram_bin_edges", "numpy.histogram2d", "numpy.histogramdd"}
+# the order of the result is unspecified: compared as multisets
+ORDER_UNSPECIFIED = {"numpy.unique|unsorted", "numpy.unique_values|pos"}
+
+
+def skip_reason(t, sc):
+    if t.func in RAW_EXPORT or t.tid in RAW_EXPORT:
+        return "raw-export"
+    if t.func in BYTE_LEVEL or t.tid in BYTE_LEVEL:
+        return "byte-level"
+    if t.func in CONSTANT_LIKE:
+        return "constant-like"
+    if t.func in VALUE_BASED_DTYPE:
+        return "value-based-dtype"
+    if t.func in TEXT or t.result == "string":
+        return "text"
+    if t.func in DEGENERATE_RANGE and sc in ("0d", "empty"):
+        return "degenerate-range"
+    return None
 
 
 # -----------------------------------------------------------------------------------------------
@@ -302,6 +353,10 @@ def run_side(t, call, U, regroup, reexpress, out_mode):
                 cont[key] = type(v)(vv) if isinstance(v, tuple) else vv
             elif regroup == "all" or regroup == g:
                 cont[key] = _scale(v, factor(U, g))
+        bound = {name for name, _c, _k in _bind_names(t, args, kwargs)}
+        for (f_, p_), (dflt, g) in IMPLICIT_DEFAULTS.items():
+            if f_ == fid and p_ not in bound and (regroup == "all" or regroup == g):
+                kwargs[p_] = dflt * factor(U, g)
     with warnings.catch_warnings():
         warnings.simplefilter("ignore")
         try:
@@ -342,6 +397,9 @@ def _close(a, b, rtol):
         return False
     if a.dtype.kind not in "fc" and b.dtype.kind not in "fc":
         return bool(np.array_equal(a, b))
+    if (a.dtype.kind in "fc" and a.dtype.itemsize // (2 if a.dtype.kind == "c" else 1) < 8) or \
+            (b.dtype.kind in "fc" and b.dtype.itemsize // (2 if b.dtype.kind == "c" else 1) < 8):
+        rtol = max(rtol, NARROW_RTOL)
     a = a.astype(np.complex128 if "c" in (a.dtype.kind, b.dtype.kind) else np.float64)
     b = b.astype(a.dtype)
     with np.errstate(all="ignore"):
@@ -375,7 +433,8 @@ def _stale_out(c, U):
 
 # kernels that go through log/exp/pow with a non-integer exponent: scaling by a power of four is not
 # exact in binary64; compared with the ordinary tolerance also in the exact mode
-INEXACT = {"numpy.geomspace", "numpy.logspace"}
+# (np.linalg.det is sign * exp(Σ log|u_ii|) in NumPy's umath_linalg)
+INEXACT = {"numpy.geomspace", "numpy.logspace", "numpy.linalg.det"}
 INEXACT_TEMPLATES = {"numpy.linalg.norm|ord3"}
 
 
@@ -421,10 +480,41 @@ def leaves(c, out):
     return out
 
 
+def _drop_bare(c):
+    if c[0] == "b":
+        return ("py", "bare-out-buffer")
+    if c[0] == "seq":
+        return ("seq", [_drop_bare(v) for v in c[1]])
+    return c
+
+
+def _ill_conditioned(call, limit=1e4):
+    for op in call.ops():
+        d = op.data
+        if isinstance(d, np.ndarray) and d.ndim >= 2 and d.dtype.kind in "fciu" and d.size:
+            try:
+                with np.errstate(all="ignore"):
+                    c = np.linalg.cond(d.astype(np.complex128 if d.dtype.kind == "c" else np.float64))
+                if not np.all(np.isfinite(c)) or np.max(c) > limit:
+                    return True
+            except Exception:  # noqa: BLE001
+                return True
+    return False
+
+
+def _sorted_leaf(c):
+    if c[0] in ("q", "b") and c[1].ndim == 1:
+        return c[:1] + (np.sort(c[1]),) + c[2:]
+    return c
+
+
 def compare(t, dk, sc, seed, mode="p4", regroup=0, out_mode="unyt"):
     """(status, detail).  status ∈ skip-build | no-such-group | raise-both | raises-after-reexpression |
     raises-before-reexpression | same | differ (detail = [(what, text)])"""
     U = MODES[mode]
+    why = skip_reason(t, sc)
+    if why:
+        return "excluded:" + why, None
     try:
         call = t.instantiate(dk, sc, seed)
     except Exception as e:  # noqa: BLE001
@@ -439,6 +529,11 @@ def compare(t, dk, sc, seed, mode="p4", regroup=0, out_mode="unyt"):
         return "no-such-group", None
     if not groups:
         return "no-such-group", None
+    exact = U.exact and not inexact_kernel(t) and not (dk == "c" and t.func.startswith("numpy.linalg."))
+    if not exact and t.func.startswith("numpy.linalg.") and _ill_conditioned(call):
+        # the tolerance comparison of an (effectively) inverse needs a bounded condition number; the exact
+        # mode (float64, power-of-four rescaling) compares these cases bit for bit
+        return "skip-ill-conditioned", None
     a = run_side(t, call, U, regroup, False, out_mode)
     b = run_side(t, call, U, regroup, True, out_mode)
     if a["outcome"] == "nobuild" or b["outcome"] == "nobuild":
@@ -450,8 +545,14 @@ def compare(t, dk, sc, seed, mode="p4", regroup=0, out_mode="unyt"):
     if b["outcome"] == "raise":
         return "raises-after-reexpression", f"{b['exc']}: {b['msg']}"
     diffs = []
-    exact = U.exact and not inexact_kernel(t)
-    d = compare_leaf(a["result"], b["result"], exact, values=t.values)
+    values = t.values and t.func not in ROUNDING
+    if t.out_form and out_mode == "bare":
+        # the result IS the caller's bare buffer (raw numbers in whatever unit): not a unit-carrying result,
+        # and not a unitless one either
+        a["result"], b["result"] = _drop_bare(a["result"]), _drop_bare(b["result"])
+    if t.tid in ORDER_UNSPECIFIED:
+        a["result"], b["result"] = _sorted_leaf(a["result"]), _sorted_leaf(b["result"])
+    d = compare_leaf(a["result"], b["result"], exact, values=values)
     if d:
         if d[0] == "not-covariant" and t.out_form and out_mode == "unyt" and _stale_out(a["result"], U):
             d = ("out-unit-stale", d[1])
@@ -460,7 +561,7 @@ def compare(t, dk, sc, seed, mode="p4", regroup=0, out_mode="unyt"):
     for i, ((role, ca), (_r, cb)) in enumerate(zip(a["ops"], b["ops"])):
         if ca is None or cb is None or unspecified:
             continue
-        d = compare_leaf(ca, cb, exact)
+        d = compare_leaf(ca, cb, exact, values=values)
         if d:
             if role == "out" and _stale_out(ca, U):
                 continue  # reported through the result
@@ -501,4 +602,83 @@ def replay_snippet(t, dk, sc, seed, mode, regroup, out_mode, harness_dir, what):
         f"bad = {what!r}\n"
         "hit = (st == bad) or (st == 'differ' and any(d[0] == bad for d in detail))\n"
         "assert not hit, (st, detail)\n"
+    )
+
+
+# -----------------------------------------------------------------------------------------------
+# class / dimension of the result (second sentence of the property; "indices, counts, booleans")
+
+
+def _numeric_leaves(c):
+    return [x for x in leaves(c, []) if x[0] in ("q", "b")]
+
+
+def base_check(t, dk, sc, seed, mode, out_mode, dim_preserving, unitless, dim_operand):
+    """[(what, text)] for the run in base units:
+       units-dropped   a dimension-preserving function returned a bare / dimensionless / differently
+                       dimensioned first result instead of a unyt object in the input's dimension
+       spurious-units  an index / count / boolean / correlation result carries (non-trivial) units"""
+    import c06_trace as TR
+
+    fid = t.func if t.func.startswith("ndarray.") else C.canonical_func(t)
+    if fid not in dim_preserving and fid not in unitless:
+        return []
+    if skip_reason(t, sc) in ("raw-export", "byte-level", "text"):
+        return []
+    U = MODES[mode]
+    try:
+        call = t.instantiate(dk, sc, seed)
+    except Exception:  # noqa: BLE001
+        return []
+    vals = [op for op in call.ops() if op.role == "value" and not op.dimless]
+    if not vals:
+        return []
+    a = run_side(t, call, U, 0, False, out_mode)
+    if a["outcome"] != "ok":
+        return []
+    out = []
+    nl = _numeric_leaves(a["result"])
+    if fid in unitless:
+        for lf in nl:
+            if lf[0] == "q" and lf[2] not in ("1", "(dimensionless)", "dimensionless"):
+                out.append(("spurious-units", f"{_brief(lf)}"))
+                break
+    if fid in dim_preserving and nl:
+        g = vals[0].group
+        p = dim_operand.get(fid)
+        if p is not None and not t.func.startswith("ndarray."):
+            args, kwargs, objs = call.materialize(lambda op: op)
+            flat, _s = TR.bind(C.resolve(t.func), args, kwargs)
+            v = (flat or {}).get(p)
+            while isinstance(v, (list, tuple)) and v:
+                v = v[0]
+            if isinstance(v, C.Op):
+                g = v.group
+        want = str(U.base(g).dimensions)
+        lf = nl[0]
+        if t.out_form and out_mode == "unyt" and _stale_out(lf, U):
+            pass  # reported as out-unit-stale by the covariance comparison
+        elif t.out_form and out_mode == "bare" and lf[0] == "b":
+            pass  # the caller's bare buffer
+        elif lf[0] != "q":
+            out.append(("units-dropped", f"first result is {_brief(lf)}; required: a unyt object of dimension {want}"))
+        elif lf[2] != want:
+            out.append(("units-dropped", f"first result is {_brief(lf)} of dimension {lf[2]}; required: dimension {want}"))
+    return out
+
+
+def base_replay_snippet(t, dk, sc, seed, mode, out_mode, harness_dir, what, lists):
+    return (
+        "import sys, warnings\n"
+        "warnings.simplefilter('ignore')\n"
+        f"sys.path.insert(0, {harness_dir!r})\n"
+        "import numpy as np\n"
+        "np.seterr(all='ignore')\n"
+        "import npcatalog as C, c07_cov as V\n"
+        f"t = [t for t in C.templates() if t.tid == {t.tid!r}][0]\n"
+        f"dimp, unitless, dimop = {lists!r}\n"
+        f"r = V.base_check(t, {dk!r}, {sc!r}, {seed!r}, {mode!r}, {out_mode!r}, set(dimp), set(unitless), dimop)\n"
+        f"call = t.instantiate({dk!r}, {sc!r}, {seed!r})\n"
+        "print('call:', t.func, '(', call.describe(), ')', r)\n"
+        f"assert not any(w == {what!r} for w, _x in r), r\n"
     )
